@@ -80,12 +80,12 @@ class C05(Property):
         "sets on the inputs of grouping steps, distinct tags per port, prefix-antichain inputs for dot products",
         "no failures, no recovery, no loops in the generated workflows",
     ]
-    quick_budget_s = 240
-    thorough_budget_s = 1500
+    quick_budget_s = 420
+    thorough_budget_s = 2400
     min_nontrivial = 10
 
     def _plan(self, ctx: Ctx):
-        n, k = (600, 10) if ctx.tier == "thorough" else (60, 3)
+        n, k = (600, 10) if ctx.tier == "thorough" else (45, 3)
         if ctx.mode == "search":
             n, k = n, 16
         return n, k
